@@ -22,7 +22,7 @@ def judge_c13(sc, keep, res, inproc):
         if b in ('hangs', 'exits') and not o['verdict'].startswith('Failure'):
             bad.append('recording %d (%s) was not reported as a failure: %s' % (o['id'], b, o['verdict']))
         # ... and the run continues with a fresh worker: a healthy recording is replayed and compared, not failed
-        if b in ('equal', 'different', 'bare') and o['verdict'].startswith('Failure'):
+        if b in ('equal', 'different', 'bare') and o['verdict'].startswith('Failure') and o['id'] not in sc.get('orphans', ()):
             bad.append('recording %d (%s) came back as %s: the run did not continue with a working worker'
                        % (o['id'], b, o['verdict']))
     return bad
